@@ -14,6 +14,7 @@ import vlib
 
 A5 = '{"*", "_", "a", " ", "."}'
 A8 = '{"*", "_", "a", " ", ".", "NBSP", "LAQUO", "EACUTE"}'
+A3 = '{"*", "_", "a"}'   # deep delimiter interplay: the shortest witnesses of a wrong search bound need 8+ delimiters/letters
 
 
 def cfg(alphabet, maxlen):
@@ -31,9 +32,9 @@ CONSTANTS
 def run(ctx):
     ctx.build_harness()
     if ctx.tier == "quick":
-        plan = [("Emphasis_a5", A5, 7), ("Emphasis_a8", A8, 5)]
+        plan = [("Emphasis_a5", A5, 7), ("Emphasis_a8", A8, 5), ("Emphasis_a3", A3, 10)]
     else:
-        plan = [("Emphasis_a5", A5, 9), ("Emphasis_a8", A8, 7)]
+        plan = [("Emphasis_a5", A5, 9), ("Emphasis_a8", A8, 7), ("Emphasis_a3", A3, 12)]
     outs = []
     for name, alpha, n in plan:
         r = ctx.tlc("Emphasis", cfg(alpha, n), name=name, timeout=3000)
